@@ -122,6 +122,10 @@ def run_kx(c, repo, workdir, tier):
     harnesses = c.get("harnesses") or harness_names(hfile)
     if tier == "quick" and c.get("quick_harnesses"):
         harnesses = [h for h in harnesses if any(re.fullmatch(p, h) for p in c["quick_harnesses"])]
+    if tier == "thorough" and c.get("thorough_harnesses"):
+        harnesses = [h for h in harnesses if any(re.fullmatch(p, h) for p in c["thorough_harnesses"])]
+    if os.environ.get("VERIF_KX_ONLY"):
+        harnesses = [h for h in harnesses if re.fullmatch(os.environ["VERIF_KX_ONLY"], h)]
     if not harnesses:
         comp["undecided"] = "vacuity: no harnesses found"
         return comp
